@@ -133,6 +133,12 @@ def root_desc(root):
     return f"{kind}{bind or ''} {ty_text(ty)}" + (f" init={init}" if init not in ("value", "arg") else "")
 
 
+def root_class(root):
+    """the root kinds of the property statement"""
+    kind, bind, ty, _ = root
+    return f"{kind}{bind or ''}" + (f" holding {'^mut' if ty[1] else '^'}" if is_ptr(ty) else "")
+
+
 def steps_from(t, last):
     out = []
     base = t[2] if is_ptr(t) else t
@@ -378,6 +384,20 @@ class Walk:
         self.text, self.ty, self.loc, self.mutable, self.why = text, ty, loc, mutable, why
 
 
+def ref_operand(text):
+    """operand of `^` / `^mut`: capy parses `^mut p^.a` as `((^mut p)^).a` (no dereference inside the operand of a reference), so a
+    path with an explicit dereference outside of parentheses has to be parenthesised as a whole"""
+    depth = 0
+    for ch in text:
+        if ch in "([":
+            depth += 1
+        elif ch in ")]":
+            depth -= 1
+        elif ch == "^" and depth == 0:
+            return f"({text})"
+    return text
+
+
 def chain_text(root, steps):
     return Walk(root, steps, setup_memory(root, "r")[0], "r").text
 
@@ -463,13 +483,13 @@ def render_case(case, n):
         stmts.append(f"{P_} {sym} {k};")
         mem_set(after, w.loc, PY_OP[sym](mem_get(mem, w.loc), k))
     elif op[0] == "mutref":
-        stmts.append(f"m1 := ^mut {P_};")
+        stmts.append(f"m1 := ^mut {ref_operand(P_)};")
         lp = leaf_path(fty)
         if lp is not None:
             stmts.append({(): "m1^ = 7001;", ("a",): "m1.a = 7001;", (1,): "m1[1] = 7001;"}[lp])
             mem_set(after, (w.loc[0], w.loc[1] + lp), 7001)
     else:
-        stmts.append(f"m1 := ^{P_};")
+        stmts.append(f"m1 := ^{ref_operand(P_)};")
         e = leaf_through_ptr("m1", fty)
         if e is not None:
             stmts.append(f"vr_i64({base + 3}, {e});")
@@ -629,9 +649,11 @@ def select_quick(seed):
     for k in order:
         root, steps, op = space[k]
         rdsc = root_desc(root)
-        feats = {(rdsc, st[0], op_kind(op)) for st in steps} or {(rdsc, "none", op_kind(op))}
+        rc = root_class(root)
+        feats = {(rc, st[0], op_kind(op)) for st in steps} or {(rc, "none", op_kind(op))}
+        feats.add((rdsc, "root", op_kind(op)))
         if op[0] == "cmp":
-            feats.add((rdsc, "operator", op[1]))
+            feats.add((rc, "operator", op[1]))
         if feats - covered:
             covered |= feats
             core.append(k)
@@ -666,7 +688,8 @@ def violation_of(v):
         sig = f"rejected_mutable|root={root_desc(root)}|why={rd['why']}|op={op_kind(op)}|chain={chain}"
         what = f"rejected although the target is mutable: {v['desc']}; diagnostics: {v['kinds'][:2]} / {v['helps'][:2]}"
     else:
-        feats = "+".join(sorted({{"p": "paren", "u": "unwrap"}[s[0]] for s in steps if s[0] in ("p", "u")})) or "plain"
+        operand = rd["stmt"].split(" = ")[0] if op[0] in ("assign", "cmp") else rd["stmt"].split(":= ", 1)[1]
+        feats = "+".join((["paren"] if "(" in operand.replace("#unwrap(", "") else []) + (["unwrap"] if "#unwrap(" in operand else [])) or "plain"
         sig = f"effect_not_visible|{v['how']}|op={op_kind(op)}|type={rd['fty']}|steps={feats}|root={root_desc(root)}|chain={chain}"
         what = f"accepted {v['desc']} but the effect is not what every alias shows: {v.get('out', '')[:500]}"
     cls = sig.split("|chain=")[0]
